@@ -359,7 +359,25 @@ def _f_network_ops():
     return {"adjacency": A, "node_weights": w, "edge_list": el}
 
 
-FUNCS = {"rejection_sampling": _f_rejection, "embed": _f_embed, "rp_metrics": _f_rp_metrics,
+def _f_data_views():
+    """What a data object hands out is its own: editing it (here with the documented in-place normaliser)
+    must not reach the array the caller constructed the object from."""
+    from pyunicorn.core import Data
+    from pyunicorn.climate import ClimateData
+    obs = V(families._data())
+    cd = ClimateData(obs, families._grid(), 5, silence_level=3)
+    Data.normalize_time_series_array(cd.observable())
+    obs2 = V(families._data())
+    cd2 = ClimateData(obs2, families._grid(), 5, anomalies=True, silence_level=3)
+    Data.normalize_time_series_array(cd2.anomaly())
+    obs3 = V(families._data())
+    d3 = Data(obs3, families._grid(), silence_level=3)
+    v = d3.observable()
+    v *= 0.0
+    return {"observable(ClimateData)": obs, "observable(ClimateData, anomalies=True)": obs2, "observable(Data)": obs3}
+
+
+FUNCS = {"data_views": _f_data_views, "rejection_sampling": _f_rejection, "embed": _f_embed, "rp_metrics": _f_rp_metrics,
          "coupling": _f_coupling, "eventseries": _f_eventseries,
          "visibility_inputs": _f_visibility, "geo": _f_geo, "interacting_inputs": _f_interacting,
          "network_ops": _f_network_ops}
